@@ -37,7 +37,7 @@ def run(tier: str, seed: int) -> int:
         mc += [
             ("N4-E1", mc_constants(dur=16, E0=1, vals={0, 1, 2}, pdty={"f", "i"}, kinds=KINDS)),
             ("N3-E2", mc_constants(dur=12, E0=2, vals={0, 2}, pdty={"i"}, kinds=KINDS, kind0="ready", dty0="i")),
-            ("N2-E2-f", mc_constants(dur=8, E0=2, vals={0, 1, 2}, pdty={"f", "i"}, kinds=KINDS)),
+            ("N2-E2-f", mc_constants(dur=8, E0=2, vals={0, 1}, pdty={"f"}, kinds=KINDS, kind0="ready", dty0="f")),
             ("N5-E1", mc_constants(dur=20, E0=1, vals={0, 2}, pdty={"i"}, kinds=KINDS, kind0="ready", dty0="i")),
         ]
     run_mc_configs(chk, mc, invariants=["TypeOK", "Refinement"])
